@@ -51,6 +51,7 @@ pub struct ObjectReceiver {
     oti: Option<oti::Oti>,
     cache: Vec<Box<alc::AlcPktCache>>,
     cache_size: usize,
+    empty_object_received: bool,
     max_size_allocated: usize,
     blocks: VecDeque<BlockDecoder>,
     blocks_offset: usize,
@@ -97,6 +98,7 @@ impl ObjectReceiver {
             oti: None,
             cache: Vec::new(),
             cache_size: 0,
+            empty_object_received: false,
             max_size_allocated,
             blocks: VecDeque::new(),
             blocks_offset: 0,
@@ -195,6 +197,11 @@ impl ObjectReceiver {
 
         if self.transfer_length.unwrap() == 0 {
             debug_assert!(self.block_writer.is_none());
+            if self.object_writer.is_none() {
+                // FDT not received yet: the empty object is completed when the FDT is attached
+                self.empty_object_received = true;
+                return Ok(());
+            }
             self.complete(now);
             return Ok(());
         }
@@ -390,6 +397,15 @@ impl ObjectReceiver {
 
         self.init_blocks_partitioning();
         self.init_object_writer(now);
+        if self.transfer_length == Some(0)
+            && self.oti.is_some()
+            && self.state == State::Receiving
+            && (self.empty_object_received || !self.cache.is_empty())
+        {
+            // The lone packet of an empty object was received before the FDT
+            self.complete(now);
+            return true;
+        }
         self.push_from_cache(now);
         self.write_blocks(0, now)
             .unwrap_or_else(|_| self.error("Fail to write blocks to storage", now, false));
